@@ -58,7 +58,9 @@ RULE = ("one case = one Saml2Client (one configuration) consuming a sequence of 
         "shipping its certificate, rotated key, encryption-only key, another member's key; a pair of deviations; one "
         "assertion naming another Issuer (other member, entity without metadata, none); the other arrangements with the "
         "baseline; each under one of 8 option settings in turn (thorough: all 8 up to 3 assertions) with a Response "
-        "signature that mostly satisfies it, bindings drawn; + random lists (quick 60, thorough 1000) over the full product "
+        "signature that mostly satisfies it and, for lists of two and more, is mostly present (since /repo fix 6a3bb24f several "
+        "assertions are taken only under a signature of the Response; some lists come without, for the repaired number "
+        "rule), bindings drawn; + random lists (quick 60, thorough 1000) over the full product "
         "incl. only_use_keys_in_metadata; run as sequences of 4 messages on one SP.  "
         "Signature states are real: RSA through the xmlsec1 stand-in, corruption by byte edits.  "
         "non-trivial = distinct (configuration, abstract message sequence) other than (defaults, Valid, Absent, plain, POST)")
@@ -895,7 +897,9 @@ def gen_multi(ctx, rng):
         picks = [opts] if opts else (MULTI_CFGS if ctx.thorough and len(a) <= 3 else [MULTI_CFGS[n % len(MULTI_CFGS)]])
         for o in picks:
             r = rng.random()
-            rs = sig("idp") if (o[0] in (True, "unset") and r < 0.85) or r < 0.3 else None
+            # since /repo fix 6a3bb24f more than one assertion is taken only under a signature of the Response: most lists
+            # get one (a deviation shows best where everything else is in order), some do not (the repaired number rule)
+            rs = sig("idp") if ((o[0] in (True, "unset") or len(a) >= 2) and r < 0.85) or r < 0.3 else None
             if rs and rng.random() < 0.06:
                 rs = sig(rng.choice(["idp", "attacker"]), c=rng.choice([None, "sigvalue", "digest", "envelope"]))
             asl = [asr(k, st_, (whos or {}).get(i, "idp")) for i, (k, st_) in enumerate(zip(a, states))]
@@ -943,7 +947,7 @@ def gen_multi(ctx, rng):
             g = random_sig(rng, HOW_A, False, False) if rng.random() < 0.3 else (sig("idp") if rng.random() < 0.85 else None)
             asl.append({"aw": aw, "as": g, "enc": rng.random() < 0.5})
         rw = "idp" if rng.random() < 0.85 else rng.choice(WHO)
-        rs = random_sig(rng, ["sigvalue", "digest", "envelope"], True, False) if rng.random() < 0.3 else (sig("idp") if rng.random() < 0.6 else None)
+        rs = random_sig(rng, ["sigvalue", "digest", "envelope"], True, False) if rng.random() < 0.3 else (sig("idp") if rng.random() < 0.75 else None)
         opts = (rng.choice(OPTV), rng.choice(OPTV), rng.choice(OPTV))
         only = rng.choice(["unset", "unset", True, False, False, "true"])
         cells.append((opts, only, mstep(rw, rs, asl, rng.choice(["POST"] * 6 + ["Redirect", "SOAP", "PAOS"]), rng.randrange(1 << 30))))
